@@ -30,6 +30,8 @@ class Corpus:
         self.extra_texts = list(extra_texts)
         self.harness = None
         self.stratify = True
+        self.backend_failures = []
+        self.report_backend_failures = False
 
     def add_text(self, text, gen=None, origin="generated"):
         r = self.drv.ask({"op": "analyze", "text": text})
@@ -45,8 +47,13 @@ class Corpus:
             return None
         g = self.drv.ask({"op": "gen", "backend": "rust", "text": text})
         if g is None or g.get("status") != "ok":
-            self.run.violation("impl", "rust back end failed on an accepted description: %s" % (g or self.drv.last_death),
-                               {"pdl": text, "stage": "gen-rust", "signature": {"stage": "gen", "backend": "rust"}})
+            # a back-end crash on an accepted description is property C10's business
+            self.backend_failures.append({"pdl": text, "result": g or self.drv.last_death})
+            self.run.count("descriptions_backend_failed")
+            if self.report_backend_failures:
+                self.run.violation("impl", "rust back end failed on an accepted description: %s" % (g or self.drv.last_death),
+                                   {"pdl": text, "stage": "gen-rust", "signature": {"stage": "gen", "backend": "rust",
+                                    "message": str((g or {}).get("message"))[:60]}})
             return None
         d = {"text": text, "analyzed": r["file"], "rust": g["text"], "origin": origin,
              "features": sorted(gen.features) if gen else []}
